@@ -472,6 +472,15 @@ PT_MANY = {8: [[0, 2, 3, 4, 5, 7], [7, 5, 4, 3, 2, 0], [1]], 9: [[0, 2, 3, 4, 5,
 
 
 def pt_many_cases(tier, seed):
+    # 17..24 subsystems most of which are one-dimensional (cf. seeded change C02-9: bookkeeping that is only right up to 16 subsystems)
+    for n in (17, 20, 24):
+        for places in ((3, 12, 13), (0, 1, n - 1), (5, n // 2, n - 2)):
+            for vals in ((2, 3, 2), (3, 2, 2)):
+                dims = [1] * n
+                for pl, v in zip(places, vals):
+                    dims[pl] = v
+                for sys_ in ([places[1]], [places[2], places[0]], [7, places[1], 4], list(range(1, n, 2))):
+                    yield {"dims": dims, "sys": sys_}
     for n in (8, 9, 10):
         for sys_ in PT_MANY[n]:
             yield {"n": n, "sys": sys_}
@@ -480,9 +489,10 @@ def pt_many_cases(tier, seed):
 def pt_many_check(case):
     from toqito.channels import partial_transpose
 
-    n, sys_ = case["n"], case["sys"]
-    dims = [2] * n
-    N = 2 ** n
+    sys_ = case["sys"]
+    dims = list(case["dims"]) if "dims" in case else [2] * case["n"]
+    n = len(dims)
+    N = ti.prod(dims)
     idx = np.arange(N * N, dtype=np.int64).reshape(N, N)
     X = (idx * 7919 + 13) % 1000003 + 1
     T = X.reshape(dims + dims)
@@ -513,7 +523,7 @@ CLAUSES = [
     Clause("C03.realign_kron", realign_kron_cases, realign_kron_check,
            doc="R(A (x) B) = vec(A) vec(B)^T on prime-filled factors; Frobenius norm and entry multiset preserved"),
     Clause("C03.pt_many_subsystems", pt_many_cases, pt_many_check, chunk=1, weight=2.0, probe=1,
-           doc="8..10 qubits: exactly the listed row/column indices exchanged, the others left in place and in order"),
+           doc="8..10 qubits and 17..24 subsystems most of which are one-dimensional: exactly the listed row/column indices exchanged, the others left in place and in order"),
 ]
 
 # every toqito call of this property is repeated with column-major copies of its array arguments (engine.call, layout twin)
